@@ -3,6 +3,8 @@
 package output
 
 import (
+	"grog/internal/label"
+	"grog/internal/model"
 	"grog/internal/proto/gen"
 	"grog/internal/zzverif/sym"
 )
@@ -49,4 +51,34 @@ func VerifC02_O_output_hash_is_a_function_of_the_output_set() {
 	sym.Assert(erra == nil && errb == nil, "C02.cutoff.output-hash-computed")
 	sym.Assert(same == (ha == hb), "C02.cutoff.output-hash-is-a-function-of-the-output-set")
 	sym.Reach("C02.cutoff.output-hash-set")
+}
+
+// A cached result is valid for a target iff it records exactly the target's declared outputs - as a
+// set: the result lists them in the order the output writers finished, the target in declaration order.
+func VerifC02_O_cached_result_matches_declared_outputs_as_a_set() {
+	names := []string{"a.txt", "b.txt", "c.txt"}
+	t := &model.Target{Label: label.TL("p", "t")}
+	for _, n := range names {
+		t.Outputs = append(t.Outputs, model.NewOutput("file", n))
+	}
+	perm := [][]int{{0, 1, 2}, {0, 2, 1}, {1, 0, 2}, {1, 2, 0}, {2, 0, 1}, {2, 1, 0}}[sym.Choice("completion_order", 6)]
+	var recorded []*gen.Output
+	for _, i := range perm {
+		recorded = append(recorded, fileOut(names[i], "0", false))
+	}
+	same := true
+	switch sym.Choice("difference", 4) {
+	case 1: // one recorded output is another file
+		recorded[0] = fileOut("other.txt", "0", false)
+		same = false
+	case 2: // one is missing
+		recorded = recorded[:2]
+		same = false
+	case 3: // one is recorded twice instead of another
+		recorded[1] = recorded[0]
+		same = false
+	}
+	err := validateTargetResultOutputs(t, &gen.TargetResult{ChangeHash: "k", Outputs: recorded})
+	sym.Assert((err == nil) == same, "C02.noop.cached-result-valid-iff-it-records-the-declared-outputs-as-a-set")
+	sym.Reach("C02.noop.validate-set")
 }
